@@ -42,6 +42,8 @@ def run_stream(ctx, mode, n, oracle, classify=None, extra_gen_args=None):
         # which specification verdicts apply to the case (the shares of judged cases are visible in the evidence):
         # B benign (calls/pkgs/statuses/findings = specification), F fatal class (err = fs iff traversal fault), L limit class (exact inode
         # behaviour), C cancel class (exact cancellation outcome), M sequential machine (every configuration without a panicking extractor)
+        if fm.get('glue'):
+            return '%s err=%s glue=%s' % (mode, fi.get('err'), fm.get('glue'))
         ver = ''.join(k for k, f in (('B', 'hyp'), ('F', 'fatalhyp'), ('L', 'limithyp'), ('C', 'cancelhyp'), ('M', 'nopanic')) if fm.get(f) == '1')
         return '%s err=%s verdicts=%s' % (mode, fi.get('err'), ver or '-')
     return lib.standard_stream(ctx, gen='walkgen', driver='drv_walk',
@@ -64,6 +66,9 @@ def oracle_fatal(case, fi, fm):
 def oracle_calls(case, fi, fm):
     """C01 / C09: where the hypothesis of the refinement theorem holds (benign configuration), the
     IMPLEMENTATION's Extract calls must be exactly the specification's, in order; and the scan must succeed."""
+    g = oracle_glue(case, fi, fm)
+    if g or fm.get('glue'):
+        return g
     if fm.get('hyp') != '1':
         return None
     if fi.get('err') != 'none':
@@ -88,10 +93,23 @@ def oracle_calls(case, fi, fm):
     return None
 
 
+def oracle_glue(case, fi, fm):
+    """The glue around the walk (Model/Scan.lean `glue`): Scan refuses a configuration without scan roots, with requested paths AND several roots, or
+    (absolute roots) with a requested / skipped path under no root — nothing may be walked or extracted; without any filesystem extractor the scan
+    succeeds at once with an empty result and visits no inode (limits, faults and a cancelled context do not apply)."""
+    g = fm.get('glue')
+    if g == 'refused' and (fi.get('err') != 'cfg' or fi.get('vis') != '0' or fi.get('calls', '-') != '-' or fi.get('pkgs', '-') != '-'):
+        return 'the configuration must be refused before any walk, but the scan reported err=%s vis=%s calls=%s' % (fi.get('err'), fi.get('vis'), fi.get('calls'))
+    if g == 'empty' and (fi.get('err') != 'none' or fi.get('vis') != '0' or fi.get('calls', '-') != '-' or fi.get('st', '-') != '-'):
+        return 'no filesystem extractor is enabled: the scan must succeed with an empty result without visiting anything, reported err=%s vis=%s st=%s' % (
+            fi.get('err'), fi.get('vis'), fi.get('st'))
+    return None
+
+
 def oracle_machine(case, fi, fm):
     """C10_machine_any: in EVERY configuration without a panicking extractor the scan ends with the filesystem error (possible only with
     ErrorOnFSErrors) or its error, AfterInodeVisited count and Extract calls are those the sequential machine prescribes on the specification's trace."""
-    if fm.get('nopanic') != '1' or 'mspecerr' not in fm:
+    if fm.get('glue') or fm.get('nopanic') != '1' or 'mspecerr' not in fm:
         return None
     eofs = dict(x.split('=') for x in case.split(' ')[1].split(',')).get('eofs') == '1'
     if fi.get('err') == 'fs':
